@@ -120,6 +120,17 @@ let parse_bops (s : string) : M.bop list =
     done; List.rev !out in
   go ()
 
+(* the real queue with its cross-links (ParserState::verif_dump): s<end>.<pos> / e<start>.<rule>.<tag>.<pos> *)
+let parse_linked (s : string) : M.qtoken list =
+  if s = "" then [] else
+  List.map (fun t ->
+    let f = String.split_on_char '.' (String.sub t 1 (String.length t - 1)) in
+    let n x = nat_of_int (int_of_string x) in
+    match t.[0], f with
+    | 's', [e; p] -> M.QStart (n e, n p)
+    | 'e', [st; r; tg; p] -> M.QEnd (n st, n r, (if tg = "-" then None else Some (n tg)), n p)
+    | _ -> failwith "bad linked token") (String.split_on_char ',' s)
+
 let parse_raw (s : string) : M.rawtok list =
   if s = "" then [] else
   List.map (fun t ->
@@ -282,10 +293,11 @@ let m_preorder env (root : M.pairs) : M.nat list option =
 
 let m_observe env (root : M.pairs) : (string * string) list =
   match m_preorder env root with
-  | None -> [ ("PRE", "PANIC") ]
+  | None -> [ ("WF", (if M.wfqb (M.is_char_boundary env.input) (M.length0 env.input) env.q then "1" else "0")); ("PRE", "PANIC") ]
   | Some pre ->
     env.pre <- List.map int_of_nat pre;
     env.out <- [];
+    emit env "WF" (if M.wfqb (M.is_char_boundary env.input) (M.length0 env.input) env.q then "1" else "0");
     emit env "N" (string_of_int (List.length pre));
     List.iteri (fun k i -> m_pair_views env k i) pre;
     m_pairs_test env "root" (M.Ok root) true;
@@ -376,6 +388,7 @@ let s_pairs_test env lab (f : itree list) with_scripts =
 let s_observe env (forest : M.tree list) : (string * string) list =
   let (f, pre) = index_forest forest in
   env.sout <- [];
+  semit env "WF" "1";
   semit env "N" (string_of_int (List.length pre));
   List.iter (s_pair_views env) pre;
   s_pairs_test env "root" f true;
@@ -467,10 +480,10 @@ let () =
          let enum_rname r = cstr (let i = int_of_nat r in if i < 3 then enum_names.(i) else "?") in
          let bounds = M.is_char_boundary input in
          let ilen = nat_of_int (String.length input_o) in
-         let run_model q root li rname =
+         let run_model ?(tname = tname) q root li rname =
            let env = { fx; q; input; li; rname; tname; d; h; scripts; pre = []; out = [] } in
            m_observe env root in
-         let run_spec forest rname =
+         let run_spec ?(tname = tname) forest rname =
            let senv = { sinput = input; srname = rname; stname = tname; sd = d; sh = h; sscripts = scripts; sout = [] } in
            s_observe senv forest in
          (* internal check of the refinement statement on the scripts (tree-level answers) *)
@@ -518,22 +531,32 @@ let () =
           | "P" ->
             (match String.split_on_char '#' payload with
              | src :: names :: raw :: _ ->
+               let is_pp = String.length src >= 3 && String.sub src 0 3 = "pp:" in
                let rname =
                  if names = "" then enum_rname
+                 else if names.[0] = '~' then
+                   (let arr = Array.of_list (String.split_on_char ',' (String.sub names 1 (String.length names - 1))) in
+                    fun r -> let i = int_of_nat r in cstr (if i < Array.length arr then arr.(i) else string_of_int i))
                  else let arr = Array.of_list (String.split_on_char ',' names) in
                    fun r -> let i = int_of_nat r in cstr (rust_debug_str (if i < Array.length arr then arr.(i) else "?")) in
-               ignore src;
-               (match M.requeue (parse_raw raw) [] [] with
-                | None -> report_c "wfq" "other" case "requeue" raw "unbalanced token stream"
+               let tname = if is_pp then (fun t -> cstr (string_of_int (int_of_nat t))) else tname in
+               let q_opt =
+                 try (if is_pp then Some (parse_linked raw) else M.requeue (parse_raw raw) [] [])
+                 with _ -> None in
+               (match q_opt with
+                | None -> report_c "wfq" "other" case "requeue" raw "unbalanced or unreadable token stream of a successful parse"
                 | Some q ->
-                  if not (M.wfqb bounds ilen q) then report_c "wfq" "other" case "wfqb" raw "token stream of a successful parse is not well-formed";
-                  let forest = M.forest_of q M.O (M.length q) in
-                  (match M.state_line_index q input, M.pairs_new q M.O (M.length q) with
-                   | M.Ok li, M.Ok root ->
-                     thm_check q root forest;
-                     compare_obs "spec" case impl (run_spec forest rname);
-                     compare_obs "model" case impl (run_model q root li rname)
-                   | _ -> compare_obs "model" case impl [ ("ROOT", "PANIC") ]))
+                  if not (M.wfqb bounds ilen q) then
+                    report_c "wfq" "other" case "wfqb" raw "token stream of a successful parse is not well-formed"
+                  else begin
+                    let forest = M.forest_of q M.O (M.length q) in
+                    (match M.state_line_index q input, M.pairs_new q M.O (M.length q) with
+                     | M.Ok li, M.Ok root ->
+                       thm_check q root forest;
+                       compare_obs "spec" case impl (run_spec ~tname forest rname);
+                       compare_obs "model" case impl (run_model ~tname q root li rname)
+                     | _ -> compare_obs "model" case impl [ ("ROOT", "PANIC") ])
+                  end)
              | _ -> report_c "harness" "other" case "payload" payload "")
           | _ -> report_c "harness" "other" case "kind" kind "")
        | _ -> report_c "harness" "other" case "case" "" "")
